@@ -48,25 +48,28 @@ Proof. exact closed_world_refuted. Qed.
 
 (* one computed witness per recorded class: in the class, premises met, oracle false on the model *)
 Theorem C02_class_witnesses :
-  (kf_garbage w_garbage = true /\ broken w_garbage = true) /\
   in_class (kf_prefix w_prefix) w_prefix false /\
+  in_class (kf_prefix w_prefix3) w_prefix3 false /\
+  in_class (kf_prefix w_garbage) w_garbage false /\
   in_class (kf_event_head w_event_head) w_event_head false /\
   in_class (kf_dup_listener w_dup_listener) w_dup_listener false /\
   in_class (kf_collision w_collision false) w_collision false.
 Proof.
-  split; [split; apply w_garbage_broken|].
-  split; [apply w_prefix_fails|]. split; [apply w_event_head_fails|]. split; [apply w_dup_listener_fails|].
+  split; [apply w_prefix_fails|]. split; [apply w_prefix_fails|]. split; [apply w_garbage_now_prefix|].
+  split; [apply w_event_head_fails|]. split; [apply w_dup_listener_fails|].
   apply w_collision_fails. Qed.
 
-(* Repaired defects (Zod enum alias, one-argument Result, dependencies of event payload types, the
+(* Repaired defects (comma splitting below a tuple field, string[][] and User[][] returns, Zod enum alias, one-argument Result, dependencies of event payload types, the
    same event emitted twice, ipc::Channel): the former witnesses meet every premise, lie outside
    every class and satisfy the oracle in both modes *)
 Theorem C02_repaired_witnesses :
   repaired w_zod_enum true /\ repaired w_result1 false /\ repaired w_event_nested false /\
-  repaired w_event_nested true /\ repaired w_same_event_twice false /\ repaired w_ipc_channel true.
+  repaired w_event_nested true /\ repaired w_same_event_twice false /\ repaired w_ipc_channel true /\
+  repaired w_tuple_map_field false /\ repaired w_tuple_map_field true /\ repaired w_prefix2 false /\ repaired w_vecvec_user true.
 Proof.
   split; [apply w_zod_enum_repaired|]. split; [apply w_result1_repaired|]. split; [apply w_event_nested_repaired|].
-  split; [apply w_event_nested_repaired|]. split; [apply w_same_event_twice_repaired|]. apply w_ipc_channel_ok. Qed.
+  split; [apply w_event_nested_repaired|]. split; [apply w_same_event_twice_repaired|]. split; [apply w_ipc_channel_ok|].
+  exact w_batch3_repaired. Qed.
 
 (* Not asserted: the step from the premise of the property text to the side condition
    refs_declared (harvest/parse agreement lifted to projects, closure of resolve_types_lazily and
